@@ -341,7 +341,23 @@ def treeinfo_old(sym, layout, arch, layered, with_addon):
     sym.check("second-dump-identical", back.dumps() == out)
 
 
-def treeinfo_00(sym, arch, with_variant, with_discnum, blank_packagedir=False, with_repository=False):
+OTHER_00 = """[general]
+family = zz
+version = 9
+arch = ppc
+timestamp = 1
+variant = Server
+packagedir = pk
+
+[images-ppc]
+boot.iso = images/boot.iso
+
+[images-ppc64]
+boot.iso = ppc/ppc64/boot.iso
+"""
+
+
+def treeinfo_00(sym, arch, with_variant, with_discnum, blank_packagedir=False, with_repository=False, warm_other=False):
     """a pre-productmd treeinfo ([general] only): the documented mapping of doc/treeinfo-1.x
     blank_packagedir: 'packagedir =' left blank, the usual historical spelling of "the packages are at the top" ('.');
     with_repository: [general] names a repository of its own (packagedir and repository are independent keys)"""
@@ -372,9 +388,15 @@ def treeinfo_00(sym, arch, with_variant, with_discnum, blank_packagedir=False, w
     p.add_section("images-" + arch)
     p.set("images-" + arch, "boot.iso", img)
     text = write_parser(p)
+    if warm_other:
+        # another pre-productmd tree (other arch, two platforms) was converted before, by another object of the same process
+        other = TreeInfo()
+        other.loads(OTHER_00)
+        sym.check("warm-up-platforms", other.tree.platforms == set(["ppc", "ppc64"]))
     ti = TreeInfo()
     ti.loads(text)
     sym.cover("loaded")
+    sym.check("tree.platforms-exactly", ti.tree.platforms == set([arch]))
     sym.check("release.name", ti.release.name == family)
     sym.check("release.version", ti.release.version == version)
     sym.check("tree.arch", ti.tree.arch == arch)
@@ -473,6 +495,7 @@ def jobs(tier, seed):
             for wd in (True, False):
                 if wv:          # a [general] section without 'variant' is only accepted for a few product names (heuristics): fixtures only
                     out.append({"harness": "treeinfo_00", "params": {"arch": arch, "with_variant": wv, "with_discnum": wd}})
+                    out.append({"harness": "treeinfo_00", "params": {"arch": arch, "with_variant": wv, "with_discnum": wd, "warm_other": True}})
                     for bp, wr in ((True, True), (True, False), (False, True)):
                         if big or (bp + wr + wd + (arch == "src") + seed) % 2 == 0:
                             out.append({"harness": "treeinfo_00", "params": {"arch": arch, "with_variant": wv, "with_discnum": wd, "blank_packagedir": bp, "with_repository": wr}})
